@@ -82,7 +82,8 @@ type Env struct {
 	// PodGroup write faults of the current step: 0 none, 1 Conflict, 2 InternalError
 	FailPgCreate, FailPgUpdate int
 
-	rv int
+	rv     int
+	rvBase int64
 	// what the informers have delivered to the controller so far (per case)
 	dJob         *batch.Job
 	prevJob      *batch.Job // the version delivered before dJob
@@ -93,7 +94,21 @@ type Env struct {
 	armedQ       []armed // timers armed in this case and not yet reached by the clock, oldest first
 }
 
-func (e *Env) nextRV() string { e.rv++; return strconv.Itoa(e.rv + 1000) }
+// resourceVersions are decimal counters.  Every case starts from a value just below a power
+// of ten (StartRVs, chosen from the case's own tokens), so that the job's version gains a
+// digit within the history: "9" -> "10" must still compare as older -> newer.
+func (e *Env) nextRV() string { e.rv++; return strconv.FormatInt(e.rvBase+int64(e.rv), 10) }
+
+var StartRVs = []int64{1, 8, 9, 98, 99, 999, 99999999, 9999999999, 7, 1000}
+
+// StartRV resets the counter for a case; the job object is created with exactly this version.
+func (e *Env) StartRV(k int64) string {
+	if k < 0 {
+		k = -k
+	}
+	e.rvBase, e.rv = StartRVs[int(k%int64(len(StartRVs)))], 0
+	return strconv.FormatInt(e.rvBase, 10)
+}
 
 // FakeClock: the harness runs under testing/synctest; every history step then advances the
 // fake clock by one tick, and WaitIdle waits until every other goroutine is blocked.
@@ -319,7 +334,7 @@ func PGName() string { return JobName + "-" + JobUID }
 func NewJob(ns string) *batch.Job {
 	return &batch.Job{
 		TypeMeta:   metav1.TypeMeta{APIVersion: "batch.volcano.sh/v1alpha1", Kind: "Job"},
-		ObjectMeta: metav1.ObjectMeta{Name: JobName, Namespace: ns, UID: types.UID(JobUID), ResourceVersion: "1000"},
+		ObjectMeta: metav1.ObjectMeta{Name: JobName, Namespace: ns, UID: types.UID(JobUID), ResourceVersion: "1"},
 		Spec:       batch.JobSpec{Queue: QueueName, SchedulerName: "volcano"},
 	}
 }
